@@ -930,10 +930,11 @@ def run_hist_stream(ctx, nhist, depth, props, weights, stream='full_hist', tampe
                         tags.append('cfg:' + cw.edit_config()); cw.write()
                     if rng.random() < 0.35 and not simple:
                         tags.append('user:' + user_edit(rng, cw, manifests=tamper))
-                elif rng.random() < 0.3:
+                elif rng.random() < 0.3 and not simple:
                     tags.append('user:' + user_edit(rng, cw, manifests=tamper))
                 before = world_tree(sb)
                 steps.append('(HEdit %s)' % c_edits(prev, before, ids))
+                hs.user_changed = getattr(hs, 'user_changed', set()) | {q for q in set(prev) | set(before) if prev.get(q) != before.get(q)}
                 rec = {'stream': stream, 'history': h, 'step': st, 'op': kind, 'tags': tags,
                        'config': {'opts': dict(cw.opts), 'claude': cw.claude,
                                   'modules': [{k: (v if k != 'files' else {a: b.hex() for a, b in v.items()}) for k, v in m.items()} for m in cw.modules]},
@@ -1079,6 +1080,7 @@ def run_hist_stream(ctx, nhist, depth, props, weights, stream='full_hist', tampe
                     ctx.count(stream, key=('restore', len([p for p in after if p not in before])), nontrivial=after != before, tags=tags)
                 if 'C15' in props:
                     oracle_ledger(ctx, hs, cw, after, base, ids, rec)
+                hs.user_changed = getattr(hs, 'user_changed', set()) - {q for q in set(before) | set(after) if before.get(q) != after.get(q)}
                 prev = after; recs.append(rec)
                 if h < 1 and st < 3:
                     ctx.sample({'stream': stream, 'op': kind, 'tags': tags, 'plan': rec.get('plan', [])[:5], 'outcome': rec.get('outcome', rec.get('ok'))})
@@ -1114,6 +1116,8 @@ def oracle_rollback(ctx, props, hs, ordn, before, after, sb, base, rec):
             continue
         if is_manifest_name(os.path.basename(p)):
             continue   # manifests judged below
+        if p in getattr(hs, 'user_changed', set()) and p not in s_paths and before.get(p) == got:
+            continue   # the user (re)created or edited it after agentpack's last touch, and rollback left the user's file alone
         cls = None
         if p in adopted and p not in s_paths:
             cls = 'K6b'
